@@ -1,5 +1,6 @@
 From Coq Require Import Extraction ExtrOcamlBasic.
-From Tele Require Import Model.CounterConc.
+From Tele Require Import Model.CounterConc Model.CounterMulti.
 Extraction Language OCaml.
 Extraction "conc_model.ml" step default_nops adder changer init_of obs_of all_done instant_ok final_ok
-  w_extra w_readers w_have MAXEXTRA.
+  w_extra w_readers w_have MAXEXTRA
+  mstep adderM changerM minit mobs mflags m_all_done.
